@@ -136,6 +136,7 @@ void body_decoder(Task &T, const Link &l, int halfrate) {
 void body_vorbisfile(Task &T, const PhysStream &ps, int64_t total, uint64_t seed, bool seekable, int rdpol, int rdk) {
   SimFile sf; sf.bytes = &ps.bytes; sf.seekable = seekable; sf.rdpol = rdpol; sf.rdk = rdk; sf.rdrng.reseed(seed ^ 5);
   OggVorbis_File vf; ov_callbacks cb = {SimFile::cb_read, SimFile::cb_seek, SimFile::cb_close, SimFile::cb_tell};
+  T.op_boundary("open");
   int r = T.api("ov_open_callbacks", [&] { return ov_open_callbacks(&sf, &vf, nullptr, 0, cb); }); T.h.i64(r); if (r) return;
   Prng g(seed); int nops = 6 + (int)g.below(10); std::vector<char> buf(8192);
   for (int i = 0; i < nops; i++) {
@@ -198,7 +199,8 @@ struct MtRun {
       if (p.kind != "enc") { p.l = get_link(p.r); if (!p.l->ok || p.l->ref_err) continue; }
       if (p.kind == "vf") { p.ps = std::make_shared<PhysStream>(); MuxPolicy mp; mp.policy = (int)t->i("pol", 0); mp.k = (int)t->i("k", 4); mp.serial = 1000 + (long)prep.size(); mux_link(*p.ps, p.l, mp);
         if (t->has("r2ch")) { Recipe r2 = p.r; r2.ch = (int)t->i("r2ch"); r2.rate = t->i("r2rate", r2.rate); r2.seed = p.r.seed + 1; r2.n = std::min<int64_t>(p.r.n, 6000); auto l2 = get_link(r2); if (l2->ok && !l2->ref_err) { MuxPolicy m2 = mp; m2.serial = 5000 + (long)prep.size(); mux_link(*p.ps, l2, m2); } }
-        p.total = 0; for (auto &l : p.ps->links) p.total += l->len; }
+        p.total = 0; for (auto &l : p.ps->links) p.total += l->len;
+        if (t->has("junk")) { auto cp = std::make_shared<PhysStream>(*p.ps); Prng j(p.seed ^ 0x77); int64_t nj = t->i("junk"); for (int64_t q = 0; q < nj; q++) cp->bytes.push_back((uint8_t)(0x80 | j.below(0x7f))); p.ps = cp; } }   // a few trailing non-Ogg bytes: open and seeks really run into the end of the data
       prep.push_back(p);
     }
     if (prep.empty()) return;
@@ -238,8 +240,8 @@ struct MtGen {
   Prng g; const GenCfg &c; Plan p; bool thorough;
   explicit MtGen(const GenCfg &cfg) : g(cfg.seed), c(cfg), thorough(cfg.tier == "thorough") {}
   Recipe recipe(bool small) {
-    Recipe r; static const long rates[] = {8000, 16000, 22050, 32000, 44100, 48000, 44100};
-    r.rate = rates[g.below(7)]; double cc = g.unit(); r.ch = cc < 0.35 ? 1 : cc < 0.85 ? 2 : cc < 0.93 ? 3 : 6; r.q = -0.1 + g.unit() * 1.1;
+    Recipe r; static const long rates[] = {8000, 16000, 22050, 32000, 44100, 48000, 44100, 64000, 96000, 192000};
+    r.rate = rates[g.below(small ? 10 : 7)]; double cc = g.unit(); r.ch = cc < 0.35 ? 1 : cc < 0.85 ? 2 : cc < 0.93 ? 3 : 6; r.q = -0.1 + g.unit() * 1.1;
     r.mode = g.chance(0.2) ? 1 + (int)g.below(3) : 0; if (r.mode) r.nominal = (long)(r.rate * 1.4 * std::min(r.ch, 2) * (0.6 + g.unit()));
     r.n = small ? (int64_t)g.range(1500, 5000) : (int64_t)g.range(4000, 14000); if (r.ch > 2) r.n = std::min<int64_t>(r.n, 4000);
     r.sig = (int)g.below(6); r.seed = g.below(30); r.ncomm = 1; r.n = (r.n / 499) * 499;
@@ -253,7 +255,7 @@ struct MtGen {
       Rec &t = p.add("task"); double u = g.unit(); std::string kind = u < 0.4 ? "enc" : u < 0.65 ? "dec" : "vf";
       Recipe r = recipe(kind == "enc"); r.to(t); t.set("kind", kind).setu("tseed", g.below(100000));
       if (kind == "dec") t.set("halfrate", g.chance(0.15) ? 1 : 0);
-      if (kind == "vf") { t.set("seekable", g.chance(0.8) ? 1 : 0).set("rdpol", (int64_t)g.below(5)).set("rdk", (int64_t)g.range(16, 3000)).set("pol", (int64_t)g.below(4)).set("k", 4); if (g.chance(0.4)) t.set("r2ch", (int64_t)g.range(1, 2)).set("r2rate", g.chance(0.5) ? 22050 : 48000); }
+      if (kind == "vf") { t.set("seekable", g.chance(0.8) ? 1 : 0).set("rdpol", (int64_t)g.below(5)).set("rdk", (int64_t)g.range(16, 3000)).set("pol", (int64_t)g.below(4)).set("k", 4); if (g.chance(0.4)) t.set("r2ch", (int64_t)g.range(1, 2)).set("r2rate", g.chance(0.5) ? 22050 : 48000); if (g.chance(0.3)) t.set("junk", (int64_t)g.range(1, 26)); }
     }
     Rec &s = p.add("sched"); int strat = (int)g.below(4);
     s.set("strategy", strat).setu("seed", g.next() % 1000000).set("gap", (int64_t)(g.chance(0.3) ? g.range(20, 200) : g.range(200, 5000)));
